@@ -28,6 +28,7 @@ func specC18() *propertySpec {
 			{"C18-R2", "distinct-case-seeds: the per-case seed recurrence adds valid+invalid, exactly one of which grows by one per iteration, and the addend is positive once a counter is (shared with C07-R2, C09-R2)", func(r *Run) { ruleC07R2(r); ruleC09R2(r); ruleC18R2(r) }},
 			{"C18-R3", "bit-band table: for every L in 1..64 the full-width, forced-max and (L>=2) narrow draw of genUintNBiased are satisfiable; mixed-sign ranges split with 0 < pNeg < 1", ruleC18R3},
 			{"C18-R4", "float-pins: on exponent overflow the significand ranges of genUfloatRange are degenerate at the bound's own parts", ruleC18R4},
+			{"C18-R5", "all-fractions-reachable: the loop of genUfloatRange that clears trailing fraction bits runs maxR - r times with r drawn from 0..maxR, so that for r = maxR nothing is cleared and every value of the fraction range stays reachable", ruleC18R5},
 		},
 	}
 }
@@ -890,4 +891,97 @@ func (p *Program) boolPhiAlternatives(cond ssa.Value, pol bool, d int) ([][]edge
 		}
 	}
 	return out, len(out) > 0
+}
+
+
+// ruleC18R5: genUfloatRange draws r = genUintNNoReject(s, maxR) and then clears (at most) the low maxR - r bits of the
+// fraction. Every fraction of [sfMin, sfMax] stays reachable only if the loop can run zero times, i.e. its iteration
+// count is A - r for the same A that bounds r. A larger constant part always clears some bits: most interior values
+// of a narrow range can never be produced.
+func ruleC18R5(r *Run) {
+	p := r.P
+	fn := r.MustFn("genUfloatRange")
+	if fn == nil {
+		return
+	}
+	rcs := p.callsTo(fn, "genUintNNoReject")
+	if len(rcs) != 1 {
+		r.Undecided("genUfloatRange#trim-count", fn.Pos(), fmt.Sprintf("expected one genUintNNoReject call (the number of kept trailing bits), found %d", len(rcs)))
+		return
+	}
+	rc := rcs[0]
+	A := p.stripConv(rc.Arg(1))
+	isR := func(v ssa.Value) bool { return p.stripConv(v) == rc.Value() }
+	isA := func(v ssa.Value) bool { return p.stripConv(v) == A || p.same(p.stripConv(v), A) }
+	n := 0
+	for _, l := range loopsOf(fn) {
+		if !dominates(rc.Instr, l.Header.Instrs[len(l.Header.Instrs)-1]) {
+			continue
+		}
+		// counted loop: phi from init, exit on phi < bound
+		for _, in := range l.Header.Instrs {
+			ph, ok := in.(*ssa.Phi)
+			if !ok {
+				break
+			}
+			var init ssa.Value
+			step := false
+			for k, e := range ph.Edges {
+				if l.Header.Dominates(l.Header.Preds[k]) {
+					step = step || isIncrementOf(p, p.stripConv(e), ph)
+				} else {
+					init = e
+				}
+			}
+			iff, isIf := l.Header.Instrs[len(l.Header.Instrs)-1].(*ssa.If)
+			if !step || init == nil || !isIf {
+				continue
+			}
+			bo, ok := p.resolve(iff.Cond).(*ssa.BinOp)
+			if !ok {
+				continue
+			}
+			var bound ssa.Value
+			switch {
+			case bo.Op == token.LSS && p.stripConv(bo.X) == ssa.Value(ph):
+				bound = bo.Y
+			case bo.Op == token.GTR && p.stripConv(bo.Y) == ssa.Value(ph):
+				bound = bo.X
+			default:
+				continue
+			}
+			var uses func(v ssa.Value, d int) bool
+			uses = func(v ssa.Value, d int) bool {
+				if d > 5 || v == nil {
+					return false
+				}
+				v = p.stripConv(v)
+				if v == rc.Value() {
+					return true
+				}
+				if b2, ok := v.(*ssa.BinOp); ok {
+					return uses(b2.X, d+1) || uses(b2.Y, d+1)
+				}
+				return false
+			}
+			mentions := uses(bound, 0) || uses(init, 0)
+			if !mentions {
+				continue
+			}
+			n++
+			okCount := false
+			if c, isC := constInt(p.stripConv(init)); isC && c == 0 {
+				if sub, ok := p.stripConv(bound).(*ssa.BinOp); ok && sub.Op == token.SUB && isA(sub.X) && isR(sub.Y) {
+					okCount = true
+				}
+			}
+			if isR(init) && isA(bound) {
+				okCount = true
+			}
+			r.Check("genUfloatRange#trim-count", iff.Pos(), okCount, "the trailing-bit loop runs A - r times for r drawn from 0..A: it can run zero times", "the loop that clears trailing fraction bits runs from "+p.expr(init)+" to "+p.expr(bound)+", which is not A - r for the bound A = "+p.expr(A)+" of r: some low bits are always cleared and most values of a narrow float range can never be generated")
+		}
+	}
+	if n == 0 {
+		r.Undecided("genUfloatRange#trim-count", rc.Instr.Pos(), "no counted loop bounded by the drawn number of kept bits was found after genUintNNoReject")
+	}
 }
